@@ -128,6 +128,12 @@ def derive_boundaries(groups):
             g['grid']['quick']['n']=g['grid']['quick']['n']+[str(v) for v in add]
             g['bounds']=g.get('bounds','')+' (+ lengths around every constant the package compares with len(): '+','.join(map(str,add))+')'
 
+# thorough bounds that run to completion (measured on the unchanged tree: 16 cores, 200 s per instance); larger inputs
+# hit the instance deadline through path explosion and are outside the claim
+THOROUGH_CAP={'H_C07_DecodeDomainName':['0..10'],'H_C07_DecodeMessage':['0..13'],'H_C07_DecodeMessage_counts':['14','15'],
+  'H_C07_DecodeResourceRecord':['0..18'],'H_C07_DecodeUTF16LE':['0..9'],'H_C07_GPPPDecryptBytes':['0..15','17'],
+  'H_C07_KeyCredential_FromBytes':['0..15'],'H_C07_KeyCredential_FromBytes_reused':['0..14'],'H_C07_NBTNSPacket_shaped':['0..17']}
+
 if __name__=='__main__':
     dirs,groups=emit()
     derive_boundaries(groups)
@@ -138,5 +144,9 @@ if __name__=='__main__':
       "assumptions":["input is an arbitrary byte string / text (every byte symbolic, no validity assumption) of every length in the grid",
                      "allocation bound checked at every make/append growth: size <= 16*len(input)+4096 bytes"],
       "outside":["inputs longer than the stated per-decoder bound","decoders behind encoding/asn1, crypto/x509, math/big (reflection / big-number stdlib)"]}
+    for g in spec['groups']:
+        if g['harness'] in THOROUGH_CAP:
+            g['grid']['thorough']['n']=THOROUGH_CAP[g['harness']]
+        g.setdefault('instance_sec',{}).setdefault('thorough',300)
     json.dump(spec,open('/verif/props/C07.json','w'),indent=1)
     print(len(groups)+len(extra["groups"]),'groups in',len(dirs),'packages')
